@@ -7,6 +7,8 @@ NOTE = ('Trusted: clang-14 front end/-O1, vlib/ll2c.py (differentially validated
         'CBMC C semantics and solvers. Bounds (loop unwindings with --unwinding-assertions, fixture family, request budgets) are listed in the evidence file; '
         'everything outside them is outside the claim.')
 CHECKS = {
+ 'C18': ('BitArrayT<N> (all members, dynamic and static views) against set semantics on a ghost mask with symbolic contents, indices and view geometry; bit streams write<W>/read<W> round trip with symbolic values and prior buffer content for case-split alignments and width sequences (all W in 1..32 in pairs in the thorough tier).', '4 C18'),
+ 'C19': ('TaskListT<void|payload,C> for C in {1,2,3,5}: every bounded sequence of symbolic insert/remove/clear from the empty pool AND a one-step inductive query from every pool state satisfying the representation invariant (covers histories of any length per capacity); DynamicArrayT/StaticArrayT against ghost sequences.', '4 C19'),
  'C20': ('Every bundled generator kernel is symbolically executed from the IR of the real header and compared, for ALL 32/64-bit seeds and ALL 128/256-bit states, with reference implementations written from the published splitmix/xoshiro algorithms (step, jump, seeding never all-zero, [0,1) range, storage-independent construction). Bounded only by the jump()/retry loop unwindings, which are checked by unwinding assertions.', '4 C20'),
 }
 PENDING = {}
